@@ -126,6 +126,63 @@ theorem pjMulWith_shape {pre : List (ℤ × ℤ)} {P : PJ} {k : ℤ} {R : Pt} (h
         rw [(pjScale_order hs).1]
         exact ⟨_, _, rfl⟩
 
+omit hp in
+theorem coordsOut_inf_iff (c : CurveFp) (o : Option ℤ) (t : ℤ × ℤ × ℤ) : coordsOut c o t = .infinity ↔ tripleInf t = true := by
+  unfold coordsOut tripleInf
+  split <;> simp_all
+
+/-- "the sum of the two operands is at infinity", decided on the accumulator triple -/
+theorem sumInf_iff (hp2 : p ≠ 2) (C : Ctx p a b) {SP SQ : PJ} {g h : Grp (a : ZMod p) (b : ZMod p)}
+    (hP : PJRep p a b C.H SP g) (hQ : PJRep p a b C.H SQ h) :
+    tripleInf (Gen.k_add SP.x SP.y SP.z SQ.x SQ.y SQ.z SP.curve.p SP.curve.a) = true ↔ g + h = 0 := by
+  obtain ⟨R, e, hR⟩ := pjAddCore_correct hp2 C.n2t hP hQ
+  unfold pjAddCore at e
+  rw [hP.1.eqv hQ.1] at e
+  simp only [Bool.not_true, Bool.false_eq_true, if_false, Except.ok.injEq] at e
+  subst e
+  rw [← coordsOut_inf_iff SP.curve SP.order]
+  rcases result_cases hR with ⟨e, h0⟩ | ⟨J, e, _, hne⟩ | ⟨A, e, _, _⟩
+  · exact ⟨fun _ => h0, fun _ => e⟩
+  · exact ⟨(fun h' => by rw [e] at h'; cases h'), (fun h' => absurd h' hne)⟩
+  · exact absurd e (coordsOut_not_aff _ _ _ _)
+
+/-- the denotation of a `coordsOut` result does not depend on the order attribute it carries -/
+theorem ptRep_coordsOut_order {H : AddSubgroup (Grp (a : ZMod p) (b : ZMod p))} (c : CurveFp) (o o' : Option ℤ)
+    (t : ℤ × ℤ × ℤ) (g : Grp (a : ZMod p) (b : ZMod p)) :
+    PtRep p a b H (coordsOut c o t) g → PtRep p a b H (coordsOut c o' t) g := by
+  unfold coordsOut
+  split
+  · exact id
+  · exact id
+
+/-- the main loop of `mul_add` on scaled operands whose sum is not the identity (from `Jac.mulAdd_main`, applied to
+copies of the operands without order and flag: the loop does not look at either) -/
+theorem mulAddLoop_rep (hp2 : p ≠ 2) (C : Ctx p a b) {SP SQ : PJ} {g h : Grp (a : ZMod p) (b : ZMod p)}
+    (hP : PJRep p a b C.H SP g) (hQ : PJRep p a b C.H SQ h) (hzP : SP.z = 1) (hzQ : SQ.z = 1) (hne : g + h ≠ 0)
+    (sm om : ℤ) : PtRep p a b C.H (mulAddLoop SP SQ sm om) (sm • g + om • h) := by
+  have hH := C.n2t
+  let P' : PJ := ⟨SP.curve, SP.x, SP.y, SP.z, none, false⟩
+  let Q' : PJ := ⟨SQ.curve, SQ.x, SQ.y, SQ.z, none, false⟩
+  have hP' : PJRep p a b C.H P' g := ⟨hP.1, hP.2.1, hP.2.2⟩
+  have hQ' : PJRep p a b C.H Q' h := ⟨hQ.1, hQ.2.1, hQ.2.2⟩
+  have mspec : ∀ {x : Grp (a : ZMod p) (b : ZMod p)} (S : PJ), PJRep p a b C.H S x → S.order = none →
+      S.generator = false → MulSpec p a b C.H [] S x := by
+    intro x S rS oS gS k
+    exact pjMul_correct hp2 hH ⟨rS, by intro n hn; rw [oS] at hn; simp [truthy] at hn, by intro hg; rw [gS] at hg; cases hg⟩ k
+  obtain ⟨R, e, hR⟩ := mulAdd_main hp2 hH hP' hQ' (by intro n hn; simp [P', truthy] at hn) (tP := []) (tQ := [])
+    (fun S rS oS gS => mspec S rS oS gS) (fun S rS oS gS => mspec S rS oS gS) sm om
+  have hsum : tripleInf (Gen.k_add SP.x SP.y SP.z SQ.x SQ.y SQ.z SP.curve.p SP.curve.a) = false := by
+    rcases hc : tripleInf (Gen.k_add SP.x SP.y SP.z SQ.x SQ.y SQ.z SP.curve.p SP.curve.a) with _ | _
+    · rfl
+    · exact absurd ((sumInf_iff hp2 C hP hQ).1 hc) hne
+  unfold tripleInf at hsum
+  rw [hzP, hzQ] at hsum
+  simp only [List.isEmpty_nil, Bool.not_true, Bool.false_and, Bool.false_eq_true, if_false, P', Q', truthy, pjScale, hzP, hzQ,
+    if_true, ok_bind, hsum] at e
+  have e' := Except.ok.inj e
+  simp only [mulAddLoop, hzP, hzQ]
+  exact ptRep_coordsOut_order _ none SP.order _ _ (e' ▸ hR)
+
 /-- **RepIndep holds for `Model/Curve.lean`** on the objects of ⟨G⟩ -/
 theorem rep_indep (hp2 : p ≠ 2) (C : Ctx p a b) (c : CurveFp) (hc : OnCurve p a b c) :
     @RepIndep C.H _ (Classical.decEq _) (spec C c) (HS C) (HA C) := by
@@ -134,7 +191,8 @@ theorem rep_indep (hp2 : p ≠ 2) (C : Ctx p a b) (c : CurveFp) (hc : OnCurve p 
   refine
     { hs_curve := ?_, hs_ne := ?_, ha_ne := ?_, hs_nz := ?_, hs_table := ?_, hs_forget := ?_, hs_xy := ?_, ha_xy := ?_,
       hs_scale := ?_, hs_mkPoint := ?_, hs_fromXY := ?_, ha_fromAffine := ?_, hs_neg := ?_, hs_double := ?_,
-      hs_add := ?_, hs_precompute := ?_, hs_mul := ?_, eq_jj := ?_, eq_ja := ?_, eq_aa := ?_ }
+      hs_add := ?_, hs_precompute := ?_, hs_mul := ?_, hs_sumInf := ?_, hs_mulAddLoop := ?_,
+      eq_jj := ?_, eq_ja := ?_, eq_aa := ?_ }
   · -- hs_curve
     intro P t g h
     rw [h.1.1.1]; exact hc.1.symm
@@ -248,6 +306,15 @@ theorem rep_indep (hp2 : p ≠ 2) (C : Ctx p a b) (c : CurveFp) (hc : OnCurve p 
     obtain ⟨R, e, hR⟩ := key
     obtain ⟨c', t', rfl⟩ := pjMulWith_shape e hy hk0 hk1
     exact ⟨_, e, rfresh_of_coordsOut C (g := k • g) h.2.1 hR⟩
+  · -- hs_sumInf
+    intro SP t g SQ t' h' h k _ _
+    rw [Bool.eq_iff_iff, decide_eq_true_iff]
+    exact (sumInf_iff hp2 C h.1 k.1).trans (by rw [Subtype.ext_iff]; rfl)
+  · -- hs_mulAddLoop
+    intro SP t g SQ t' h' sm om h k hzP hzQ hne
+    have hr := mulAddLoop_rep hp2 C h.1 k.1 hzP hzQ (fun e => hne (Subtype.ext e)) sm om
+    unfold mulAddLoop at hr ⊢
+    exact rfresh_of_coordsOut C (g := sm • g + om • h') h.2.1 hr
   · -- eq_jj
     intro P t g Q t' h' h k
     have := pjEq_iff hH h.1 (other := .jac Q) k.1
